@@ -89,6 +89,21 @@ theorem failed_miss_unpositions (f : File) (unc : Codec) (m : MR) (b o : Nat)
     · simp only [ho, if_true]; exact ⟨trivial, trivial, trivial, trivial⟩
     · simp only [ho, if_false] at hfail; exact absurd rfl hfail
 
+/-- after a successful seek, `get_position` reports the position asked for -/
+theorem seek_then_position (f : File) (unc : Codec) (hc : CodecOK unc) (m : MR) (b o : Nat)
+    (h : (seek true f unc m b o).1 = 0) : getPos (seek true f unc m b o).2 = (b, o) := seek_getPos hc h
+
+/-- **xattr reader, out-of-line values** (`read_value_hdr` / `sqfs_xattr_reader_read_value`): remember
+`get_position`, seek to the referenced value, read it, seek back.  If that succeeds, the key/value reader reports
+the remembered position again and *every* continuation (the following keys and values) reads exactly what it
+would have read had the detour not happened — also when the remembered position was the end of a block, where
+`get_position` names the start of the next block instead. -/
+theorem ool_position_restored (f : File) (unc : Codec) (hc : CodecOK unc) (m : MR) (hm : Coherent f unc m)
+    (b o n : Nat) (hok : (oolDetour true f unc m b o n).1 = 0) :
+    getPos (oolDetour true f unc m b o n).2.2 = getPos m ∧
+    ∀ ns, answerReads true f unc (oolDetour true f unc m b o n).2.2 ns = answerReads true f unc m ns :=
+  oolDetour_restores hc hm b o n hok
+
 /-! ### Part 2: the data reader's block cache and fragment cache (`lib/sqfs/src/data_reader.c`)
 
 `kw = false` is the code as it is (data-block cache keyed by location only), `kw = true` the code with
@@ -178,5 +193,30 @@ theorem toyUnc_ok : CodecOK toyUnc := by
       · cases h
       · cases h; decide
     · cases h; decide
+
+
+/-- block A "abcd" at 0, block B "xy" at 6 (both stored uncompressed) -/
+private def exFile : File :=
+  { size := 10, byte := fun i => ([0x04, 0x80, 0x61, 0x62, 0x63, 0x64, 0x02, 0x80, 0x78, 0x79] : List UInt8).getD i 0,
+    bad := fun _ => false }
+
+/-- an instance of `meta_history_independent` with a failing seek in the history and data in the answer -/
+example : answer true exFile toyUnc (run true exFile toyUnc (fresh 0 10) [.seek 0 0, .seek 6 3]) 0 0 [2, 2, 1]
+    = { seekSt := 0, reads := [(0, [0x61, 0x62]), (0, [0x63, 0x64]), (0, [0x78])], endPos := some (6, 1) } := by
+  decide +kernel
+
+example : (10 : Nat) ≤ NONE := by decide
+
+/-- an instance of `ool_position_restored` whose remembered position is the end of block A (so that
+`get_position` names block B): the detour into block A succeeds -/
+example : (oolDetour true exFile toyUnc (run true exFile toyUnc (fresh 0 10) [.seek 0 0, .read 4]) 0 1 2).1 = 0 ∧
+    getPos (run true exFile toyUnc (fresh 0 10) [.seek 0 0, .read 4]) = (6, 0) := by
+  decide +kernel
+
+/-- `ConsIno` for the current code is satisfiable by a non-trivial inode (one raw 8-byte block at location 0) -/
+example : DataReader.ConsIno false (fun _ => 16777224)
+    { fileSize := 8, blocksStart := 0, fragIdx := 4294967295, fragOff := 0, blocks := [16777224] } := by
+  unfold DataReader.ConsIno DataReader.Cons
+  decide
 
 end Sqfs.C10
